@@ -140,17 +140,24 @@ func init() {
 	register(&PropDef{
 		ID:    "C02",
 		Level: "model_checking",
-		Rule: "scenarios: blocks x sequences x concurrency grid (F-seq) and two plans on one Workstream; every order of visible operations " +
+		Rule: "scenarios: blocks x sequences x concurrency grid and two plans on one Workstream, family F-seq (every tolerance value incl. -1, every failing position, second block) and sharp scenarios; every order of visible operations " +
 			"(storage writes, plugin entries/returns, API calls) within the deviation bound; non-trivial = execution in which at some state two different logical threads were enabled",
 		Assumptions: []string{"a free worker-pool runner always exists (64 runners)", "engine internals between two visible operations are atomic (I/O granularity)"},
 		NewMon:      func(sc *Scenario) Monitor { return monC02{} },
 		Items: func(tier string) []WorkItem {
 			var items []WorkItem
+			b := 1
+			if tier == "thorough" {
+				b = 2
+			}
 			for _, sc := range FamilyConc(tier) {
-				b := 1
-				if tier == "thorough" {
-					b = 2
-				}
+				items = append(items, explore("C02", sc, b, true))
+			}
+			// every tolerance value, failing positions, second block (the bound must not depend on them)
+			for _, sc := range FamilySeq(tier) {
+				items = append(items, explore("C02", sc, b, true))
+			}
+			for _, sc := range FamilySharp(tier) {
 				items = append(items, explore("C02", sc, b, true))
 			}
 			return items
